@@ -900,8 +900,13 @@ func c06RandOp(r *Rand, days []c06Day) (op, class string) {
 	case k < 6: // raw length
 		v := append([]uint32{desc.Raw + 1, desc.Raw - 1, desc.Len, desc.Raw + 4, desc.Raw + 16}, c06Interesting32...)[r.Intn(5+len(c06Interesting32))]
 		return fmt.Sprintf("set:%d:m:%d:%s", di, desc.Pos+4, c06U32(v)), "meta-rawlen"
-	case k < 7: // encoder type
-		return fmt.Sprintf("set:%d:m:%d:%02x", di, desc.Pos+8, []byte{0, 1, 2, 3, 4, 255}[r.Intn(6)]), "meta-enc"
+	case k < 8: // encoder type (half of the time of a block that is followed by another one of the column:
+		// what the reader does to itself on a block it cannot decode must not hurt the next block)
+		if m.N > 1 && r.Bool() {
+			blk = r.Intn(m.N - 1)
+			desc = m.Cols[col][blk]
+		}
+		return fmt.Sprintf("set:%d:m:%d:%02x", di, desc.Pos+8, []byte{0, 1, 2, 3, 4, 4, 9, 255}[r.Intn(8)]), "meta-enc"
 	case k < 9: // IPv4 / IPv6 entry counts of a block
 		pos := m.TrafAt + 16*blk + 4*r.Intn(2)
 		cur := binary.BigEndian.Uint32(d.Meta.Data[pos:])
